@@ -281,6 +281,9 @@ def signed_parts_scripts(rng, thorough):
         for v in (0, 2, 3, 4, 5, 255):                                     # other stage values
             variants.append(("stage=%d" % v, [stage(v), nid(), ecdh(), algs()] + ([pay()] if v in (2, 3) else [])))
         variants.append(("pong-without-payload", [stage(2), nid(), ecdh(), algs()]))
+        variants.append(("pong-without-ecdh", [stage(2), nid(), algs(), pay()]))
+        variants.append(("pong-without-algos", [stage(2), nid(), ecdh(), pay()]))
+        variants.append(("pong-without-nodeid", [stage(2), ecdh(), algs(), pay()]))
         variants.append(("peng-without-payload", [stage(3), nid()]))
         variants.append(("peng", [stage(3), nid(), pay()]))
         variants.append(("stage-len-2", [tlv(1, b"\x01\x00"), nid(), ecdh(), algs()]))
